@@ -7,6 +7,8 @@
 //   ndmapt <u8|u16|u32|i32> N s1..sN -> the same for a tuple type with a narrower value type (N <= 4)
 //   ndmap N s1..sN         -> the tuples handed to the callback, in call order: "a,b;c,d;..." ("-" when none)
 #include <covfie/core/utility/nd_map.hpp>
+#include <functional>
+#include <stdexcept>
 #include <covfie/core/utility/nd_size.hpp>
 #include <covfie/core/utility/numeric.hpp>
 #include <cstdint>
@@ -25,12 +27,34 @@ template <typename T> std::string rle(u64 lo, u64 hi) {
   os << start << " " << hi << " " << static_cast<u64>(cur) << ";";
   return os.str();
 }
+// nd_map is called with three forms of callback, which must all see the same sequence of tuples:
+//  (a) a closure capturing by reference (what the library itself passes), (b) an lvalue std::function,
+//  (c) a temporary closure owning non-trivially-movable state (a vector and a string it needs at every call)
+template <typename S, std::size_t N> std::string nd_forms(const S & s) {
+  std::string out[3];
+  try {
+    { std::ostringstream os; bool any = false;
+      utility::nd_map<S>([&](S t) { if (any) os << ";"; any = true; for (std::size_t k = 0; k < N; ++k) { if (k) os << ","; os << static_cast<u64>(t[k]); } }, s);
+      out[0] = any ? os.str() : "-"; }
+    { std::ostringstream os; bool any = false;
+      std::function<void(S)> fn = [&](S t) { if (any) os << ";"; any = true; for (std::size_t k = 0; k < N; ++k) { if (k) os << ","; os << static_cast<u64>(t[k]); } };
+      utility::nd_map<S>(fn, s);
+      S z; for (std::size_t k = 0; k < N; ++k) z[k] = 0;
+      utility::nd_map<S>(fn, z);                       // an empty box in between: no call
+      out[1] = any ? os.str() : "-"; }
+    { std::ostringstream os; bool any = false;
+      utility::nd_map<S>([off = std::vector<u64>(N, 0), sep = std::string(","), &os, &any](S t) {
+        if (any) os << ";"; any = true; for (std::size_t k = 0; k < N; ++k) { if (k) os << sep.at(0); os << static_cast<u64>(t[k]) + off.at(k); } }, s);
+      out[2] = any ? os.str() : "-"; }
+  } catch (const std::exception & e) { return std::string("bad callback form died: ") + e.what(); }
+  if (out[1] != out[0]) return "bad std::function callback saw " + out[1].substr(0, 200) + " | closure saw " + out[0].substr(0, 200);
+  if (out[2] != out[0]) return "bad owning temporary callback saw " + out[2].substr(0, 200) + " | closure saw " + out[0].substr(0, 200);
+  return out[0];
+}
 template <typename T, std::size_t N> std::string ndmt(const std::vector<u64> & sz) {
   using S = covfie::array::array<T, N>;
   S s; for (std::size_t k = 0; k < N; ++k) s[k] = static_cast<T>(sz[k]);
-  std::ostringstream os; bool any = false;
-  utility::nd_map<S>([&](S t) { if (any) os << ";"; any = true; for (std::size_t k = 0; k < N; ++k) { if (k) os << ","; os << static_cast<u64>(t[k]); } }, s);
-  return any ? os.str() : "-";
+  return nd_forms<S, N>(s);
 }
 template <typename T> std::string ndmtN(std::size_t N, const std::vector<u64> & sz) {
   switch (N) { case 1: return ndmt<T, 1>(sz); case 2: return ndmt<T, 2>(sz); case 3: return ndmt<T, 3>(sz); case 4: return ndmt<T, 4>(sz); }
@@ -39,9 +63,7 @@ template <typename T> std::string ndmtN(std::size_t N, const std::vector<u64> & 
 template <std::size_t N> std::string ndm(const std::vector<u64> & sz) {
   using S = utility::nd_size<N>;
   S s; for (std::size_t k = 0; k < N; ++k) s[k] = sz[k];
-  std::ostringstream os; bool any = false;
-  utility::nd_map<S>([&](S t) { if (any) os << ";"; any = true; for (std::size_t k = 0; k < N; ++k) { if (k) os << ","; os << t[k]; } }, s);
-  return any ? os.str() : "-";
+  return nd_forms<S, N>(s);
 }
 int main() {
   std::string line;
